@@ -18,7 +18,7 @@ for pdir, r in sorted(res.items()):
         print("not kept (does not build / fails baseline):", pdir)
         continue
     prop = os.path.basename(os.path.dirname(pdir)); k = os.path.basename(pdir)
-    dst = os.path.join(here, "seeded", "%s-%s" % (prop, k))
+    dst = os.path.join(here, "seeded", "%s%s-%s" % (os.environ.get("SEED_PREFIX", ""), prop, k))
     os.makedirs(dst, exist_ok=True)
     for fn in os.listdir(pdir):
         if os.path.isfile(os.path.join(pdir, fn)):
